@@ -87,6 +87,21 @@ func tvRunOpts(ctx *RunCtx, pkgs []*tv.Package, o tvOpts) error {
 			mu.Unlock()
 			continue
 		}
+		if tr.V == "" && (o.CaseDeadlineS > 0 || strings.HasPrefix(p.Name, "rlk") || strings.HasPrefix(p.Name, "rnd")) {
+			// a grammar-derived package that does not load (a generator defect, not goose's): isolate the
+			// function and report it as inconclusive instead of failing the whole check
+			if len(p.Cases) > 1 {
+				pkgs = append(pkgs, p.Singletons()...)
+				mu.Lock()
+				ctx.Programs -= len(p.Cases)
+				mu.Unlock()
+			} else {
+				mu.Lock()
+				ctx.Inconcl = append(ctx.Inconcl, fmt.Sprintf("%s: generated program does not load: %s", p.Cases[0].ID, firstLines(tr.Stderr, 3)))
+				mu.Unlock()
+			}
+			continue
+		}
 		if tr.V == "" {
 			return fmt.Errorf("goose produced no output for package %s (exit %d): %s", p.Name, tr.Exit, firstLines(tr.Stderr, 10))
 		}
